@@ -173,6 +173,13 @@ class ArityChecker(MultiFunction):
             # argument numbers (ignoring parts)
             numbers = set(tuple(sorted(set(arg[0].number() for arg in op))) for op in ops)
             if () in numbers:  # Allow e.g. <v[0], 0, v[1]> but not <v[0], u[0]>
+                # Only literal zeros may lack the arguments: <v[0], 1> is affine
+                for component, op in zip(o.ufl_operands, ops):
+                    if not op and not isinstance(component, Zero):
+                        raise ArityMismatch(
+                            "Listtensor components must depend on the same argument numbers, "
+                            f"found a nonzero component {component} without form arguments."
+                        )
                 numbers.remove(())
             if len(numbers) > 1:
                 raise ArityMismatch(
